@@ -19,12 +19,14 @@ Proof. exact fill_ok_promote_pf. Qed.
 Print Assumptions fill_ok_promote.
 
 (* (b) mergemany = concatenation of the values, on the fragment "all operands share one skeleton":
-   1-d NumpyArray of any dtype | ListOffsetArray / ListArray (any width, gaps, any order) of skeleton |
-   IndexedArray / IndexedOptionArray / ByteMasked / BitMasked / UnmaskedArray of skeleton.
+   1-d NumpyArray of any dtype | ListOffsetArray / ListArray (any width, gaps, any order) / RegularArray
+   (size <> 1) of skeleton | IndexedArray / IndexedOptionArray / ByteMasked / BitMasked / UnmaskedArray of
+   skeleton ([has_sk], Proofs_MM.v).
    The result exists with the stated fuel (no EOob / EFuel / EValue), and every value is unchanged up to the
    documented cast of booleans to 0/1 when the merged leaf type is a number ([deep_cast]).
-   _partial: RegularArray, RecordArray, UnionArray, EmptyArray operands, n-d NumpyArray, strings and
-   option-with-non-option mixtures (reverse_merge) are not covered by the proof (they are by the tests). *)
+   _partial: RegularArray of size 1 (its content goes through a lazy carry), RecordArray, UnionArray,
+   EmptyArray operands, n-d NumpyArray, strings / parameters and option-with-non-option mixtures
+   (reverse_merge) are not covered by the proof (they are by the tests). *)
 Theorem mergemany_app_partial : forall s cs,
   (2 <= length cs)%nat ->
   Forall (fun c => has_sk s c = true) cs -> Forall (fun c => valid_b c = true) cs ->
